@@ -4,6 +4,7 @@
 // "shape" cases (structure of every cell of a shape x class) come first in the file; every "vals" case (constructor
 // arguments, values, filtration order, persistence) is checked against its shape too.
 #include "cub_common.hpp"
+#include <set>
 
 using vf::crash_ctx;
 
@@ -130,6 +131,28 @@ static void check_vals(const bj::object& c) {
           else if (eps != s) { dv.add("incidences alternate along the enumeration", bj::array{sc.at("bd"), sc.at("inc")}, got.at("bd").as_array()[x]); break; }
         }
       }
+    }
+    if (got.contains("lookup") && (c.at("conv").as_string() != "top" || S.at("has_top").as_bool())) {
+      // the looked-up top cell [vertex] must be one (per the shape derived by TLC), be incident to x (transitive
+      // closure of the specification's boundary lists) and carry the value of x; infinite values are not judged
+      Dev dv{"lookup", cact};
+      ++n_eval;
+      const bool top = c.at("conv").as_string() == "top";
+      const std::int64_t r = got.at("lookup").as_array()[x].to_number<std::int64_t>();
+      const std::vector<std::int64_t> pool = i64s(top ? S.at("tops") : S.at("verts"));
+      auto faces_of = [&](std::int64_t t) {   // all faces of t, t included
+        std::set<std::int64_t> seen{t};
+        std::vector<std::int64_t> todo{t};
+        while (!todo.empty()) {
+          std::int64_t y = todo.back(); todo.pop_back();
+          for (std::int64_t f : i64s(cells[y].as_object().at("bd"))) if (seen.insert(f).second) todo.push_back(f);
+        }
+        return seen;
+      };
+      bool ok = std::find(pool.begin(), pool.end(), r) != pool.end();
+      if (ok) ok = top ? faces_of(r).count(x) > 0 : faces_of(x).count(r) > 0;
+      if (ok) ok = (xval[r] == xval[x]);
+      if (!ok) dv.add(top ? "get_top_dimensional_coface_of_a_cell" : "get_vertex_of_a_cell", "an incident top cell / vertex with the value of the cell", r);
     }
     {  // coboundary: the geometric cofaces, each once; no order is documented
       Dev dv{"coboundary", cact};
